@@ -53,6 +53,10 @@ type unitSpec struct {
 	Files        map[string]string `json:"files"`   // injected name -> file under harness/<ID>/
 	Instrument   []instrSpec       `json:"instrument,omitempty"`
 	Race         bool              `json:"race,omitempty"`
+	// RaceFocus: substrings of function names; a reported data race counts as a
+	// violation of this property only when one of its two access stacks has its
+	// innermost keep-core frame matching one of them (empty = every race counts).
+	RaceFocus    []string          `json:"race_focus,omitempty"`
 	Shards       int               `json:"shards,omitempty"`          // processes (quick)
 	ShardsT      int               `json:"shards_thorough,omitempty"` // processes (thorough)
 	TimeoutQ     int               `json:"timeout_quick_s,omitempty"`
@@ -585,6 +589,10 @@ func runUnit(sp *spec, u *unitSpec, ui int, scratch, tier, replay string, seed i
 			if replay != "" {
 				env = append(env, "VERIF_REPLAY="+replay)
 			}
+			raceLog := filepath.Join(udir, fmt.Sprintf("race%d", s))
+			if u.Race {
+				env = append(env, "GORACE=log_path="+raceLog+" halt_on_error=0")
+			}
 			if u.GoMaxProcs > 0 {
 				env = append(env, fmt.Sprintf("GOMAXPROCS=%d", u.GoMaxProcs))
 			}
@@ -623,7 +631,22 @@ func runUnit(sp *spec, u *unitSpec, ui int, scratch, tier, replay string, seed i
 				errs[s] = fmt.Errorf("shard %d unfinished", s)
 				return
 			}
-			if werr != nil {
+			var races []violation
+			var outside []string
+			if u.Race {
+				races, outside = parseRaces(raceLog, u.RaceFocus)
+				results[s].Violations = append(results[s].Violations, races...)
+				if len(outside) > 0 {
+					if results[s].Extra == nil {
+						results[s].Extra = map[string]any{}
+					}
+					results[s].Extra["races_outside_property"] = outside
+					for _, o := range outside {
+						fmt.Fprintf(os.Stderr, "vcheck: note: data race outside this property's focus: %s\n", o)
+					}
+				}
+			}
+			if werr != nil && !(u.Race && len(races)+len(outside) > 0) {
 				errs[s] = fmt.Errorf("shard %d: test binary failed after writing its result: %v\n%s", s, werr, tail(buf.String(), 60))
 			}
 			if results[s].Unit == "" {
@@ -646,4 +669,63 @@ func tail(s string, n int) string {
 		lines = lines[len(lines)-n:]
 	}
 	return strings.Join(lines, "\n")
+}
+
+// parseRaces reads the race detector's log files and turns each DATA RACE block into a
+// violation whose fingerprint names the innermost keep-core frames of the two accesses.
+func parseRaces(logPrefix string, focus []string) (vs []violation, outside []string) {
+	files, _ := filepath.Glob(logPrefix + ".*")
+	seen := map[string]bool{}
+	for _, f := range files {
+		b, err := os.ReadFile(f)
+		if err != nil {
+			continue
+		}
+		for _, block := range strings.Split(string(b), "==================") {
+			if !strings.Contains(block, "WARNING: DATA RACE") {
+				continue
+			}
+			var frames []string
+			inAccess := false
+			got := false
+			for _, line := range strings.Split(block, "\n") {
+				t := strings.TrimSpace(line)
+				switch {
+				case strings.HasPrefix(t, "Read at"), strings.HasPrefix(t, "Write at"), strings.HasPrefix(t, "Previous read"), strings.HasPrefix(t, "Previous write"),
+					strings.HasPrefix(t, "Atomic read"), strings.HasPrefix(t, "Atomic write"), strings.HasPrefix(t, "Previous atomic"):
+					inAccess, got = true, false
+				case strings.HasPrefix(t, "Goroutine "):
+					inAccess = false
+				case inAccess && !got && strings.HasPrefix(t, "github.com/keep-network/keep-core/") && !strings.Contains(t, "verifshim") && !strings.Contains(t, "TestVerif"):
+					fn := strings.TrimPrefix(t, "github.com/keep-network/keep-core/")
+					if i := strings.LastIndex(fn, "("); i > 0 && strings.HasSuffix(fn, ")") {
+						fn = fn[:i]
+					}
+					frames = append(frames, fn)
+					got = true
+				}
+			}
+			sort.Strings(frames)
+			fp := "race: " + strings.Join(frames, " <-> ")
+			if seen[fp] {
+				continue
+			}
+			seen[fp] = true
+			match := len(focus) == 0
+			for _, fo := range focus {
+				for _, fr := range frames {
+					if strings.Contains(fr, fo) {
+						match = true
+					}
+				}
+			}
+			if !match {
+				outside = append(outside, fp)
+				continue
+			}
+			rb, _ := json.Marshal(map[string]any{"race_report": strings.TrimSpace(block)})
+			vs = append(vs, violation{Fingerprint: fp, What: "data race reported by the free-running -race pass between " + strings.Join(frames, " and "), Replay: rb})
+		}
+	}
+	return vs, outside
 }
